@@ -71,8 +71,35 @@ func (in *Interp) renderInputs(m Model) map[string]string {
 	return out
 }
 
+// realisableModel returns a model of the path condition whose stub results agree with the real
+// functions on the model's own inputs; ok=false if the path condition turns out infeasible.
+func (in *Interp) realisableModel() (Model, bool) {
+	e := in.ex
+	for round := 0; round < 64; round++ {
+		m := e.ensureModel()
+		if m == nil {
+			res, _ := e.solver.Check(nil, false)
+			return nil, res != "unsat"
+		}
+		facts := in.refineStubs(m)
+		if len(facts) == 0 {
+			return m, true
+		}
+		for _, f := range facts {
+			e.assumeSoft(f)
+		}
+		e.StubRefinements += len(facts)
+		e.modelOK = false
+	}
+	e.Inconclusive = append(e.Inconclusive, "counterexample rests on stub results the real function does not produce (64 refinements exhausted) in "+in.harness)
+	panic(pathEnd{"stub-unrealisable"})
+}
+
 func (in *Interp) recordFinding(kind, label, detail string) {
-	m := in.ex.ensureModel()
+	m, feasible := in.realisableModel()
+	if !feasible {
+		panic(pathEnd{"infeasible"})
+	}
 	f := Finding{Harness: in.harness, Kind: kind, Label: label, Detail: detail, Choices: in.ex.trail(), PathCond: in.ex.pcString()}
 	if m != nil {
 		f.Values = in.renderInputs(m)
@@ -105,10 +132,21 @@ func (in *Interp) vAssert(c Bool, label string) {
 		panic(pathEnd{"assert-failed"})
 	}
 	neg := Not(c.S)
-	if v, ok := e.evalModel(neg); ok && v {
+	if v, ok := e.evalModel(neg); ok && v && len(in.ufCalls) == 0 {
 		in.recordFinding("assert", label, "")
 	} else {
 		res, m := e.check(neg)
+		for round := 0; res == "sat" && m != nil && round < 64; round++ {
+			facts := in.refineStubs(m)
+			if len(facts) == 0 {
+				break
+			}
+			for _, f := range facts {
+				e.assumeSoft(f)
+			}
+			e.StubRefinements += len(facts)
+			res, m = e.check(neg)
+		}
 		switch res {
 		case "unsat":
 			e.Discharged++
@@ -215,8 +253,12 @@ func init() {
 		in.ex.Reached[in.harness+":"+strArg(a[0]).mustConcrete()]++
 		return nil
 	})
-	reg("vAnd", func(in *Interp, fr *frame, a []Value) Value { return symBool(And(a[0].(Bool).Term(), a[1].(Bool).Term())) })
-	reg("vOr", func(in *Interp, fr *frame, a []Value) Value { return symBool(Or(a[0].(Bool).Term(), a[1].(Bool).Term())) })
+	reg("vAnd", func(in *Interp, fr *frame, a []Value) Value {
+		return symBool(And(a[0].(Bool).Term(), a[1].(Bool).Term()))
+	})
+	reg("vOr", func(in *Interp, fr *frame, a []Value) Value {
+		return symBool(Or(a[0].(Bool).Term(), a[1].(Bool).Term()))
+	})
 	reg("vNot", func(in *Interp, fr *frame, a []Value) Value { return symBool(Not(a[0].(Bool).Term())) })
 	reg("vImplies", func(in *Interp, fr *frame, a []Value) Value {
 		return symBool(Implies(a[0].(Bool).Term(), a[1].(Bool).Term()))
